@@ -313,7 +313,6 @@ func sortedKeys(m map[string]int) []string {
 	return ks
 }
 
-
 // ---- worker subprocess protocol -------------------------------------------------------------------
 
 type workerMsg struct {
